@@ -578,6 +578,11 @@ def run(ctx, host=None):
     fun = prog.fn('container:Container._get_objects_stream_meta_generator')
     nt = cont.constants.get('ObjQueryResults')
     fields = [e.value for e in nt.args[1].elts] if isinstance(nt, ast.Call) and len(nt.args) > 1 and isinstance(nt.args[1], (ast.List, ast.Tuple)) else []
+    if not fields:
+        # class ObjQueryResults(NamedTuple): hashkey: str; offset: int; ...   -- the fields are the annotated names, in order
+        for st_ in cont.tree.body:
+            if isinstance(st_, ast.ClassDef) and st_.name == 'ObjQueryResults' and any(norm(b).split('.')[-1] == 'NamedTuple' for b in st_.bases):
+                fields = [x.target.id for x in st_.body if isinstance(x, ast.AnnAssign) and isinstance(x.target, ast.Name)]
     chk.require(fields, 'ObjQueryResults namedtuple not found')
     npos = 0
     for n in walk_local(fun.node):
